@@ -288,11 +288,11 @@ func init() {
 		Spaces: func(tier string) []*core.Space {
 			forms, structure, _ := scopeAlphabets()
 			sp := []*core.Space{c12TestdataSpace(),
-				c12GenSpace(scopeSpaceDef{"forms-1node", forms, 1, 1, otherVariants, 1}),
-				c12GenSpace(scopeSpaceDef{"structure<=2-all-second-files", structure, 1, 2, otherVariants, 1}),
+				c12GenSpace(scopeSpaceDef{"forms-1node", forms, 1, 1, otherVariants, 1, false}),
+				c12GenSpace(scopeSpaceDef{"structure<=2-all-second-files", structure, 1, 2, otherVariants, 1, false}),
 			}
 			if tier == "thorough" {
-				sp = append(sp, c12GenSpace(scopeSpaceDef{"structure-3nodes", structure, 3, 3, otherVariants[:1], 1}))
+				sp = append(sp, c12GenSpace(scopeSpaceDef{"structure-3nodes", structure, 3, 3, otherVariants[:1], 1, false}))
 			}
 			return sp
 		},
